@@ -23,7 +23,7 @@ import (
 	"github.com/saucelabs/forwarder/ratelimit"
 )
 
-func init() { commands["c20"] = c20Run }
+func init() { commands["c20"] = c20Run; commands["c20-params"] = c20Params }
 
 type c20Case struct {
 	C struct {
@@ -41,6 +41,8 @@ type c20Case struct {
 	// Big: the reply body reaches the listener in one write larger than the limiter's burst (--log-http body keeps
 	// the whole body in memory and hands it over at once)
 	Big bool `json:"big"`
+	// Fast: a high limit; the transfer is the burst plus one second's worth
+	Fast bool `json:"fast"`
 }
 
 const mib = 1 << 20
@@ -187,6 +189,9 @@ func c20Case1(seed int64, idx int, c *c20Case) (map[string]any, []map[string]any
 		burst = int64(ratelimit.VerifBurst(int64(c.Exp.Rate) * mib))
 	}
 	total := int64(12 * mib)
+	if c.Fast {
+		total = burst + int64(c.Exp.Rate)*mib
+	}
 	per := total / int64(c.C.Conns)
 	if windowed {
 		per = 4 * mib
@@ -470,4 +475,23 @@ func readWireRequestHead(br *bufio.Reader) (*wireMsg, error) {
 		return nil, err
 	}
 	return m, nil
+}
+
+// c20Params: the limiter a listener builds admits exactly the configured number of bytes per second (RateLimit.tla Bandwidths).
+func c20Params(e *env) {
+	e.eachCase(func(raw json.RawMessage) {
+		var c struct {
+			Bandwidth int64 `json:"bandwidth"`
+			Rate      int64 `json:"rate"`
+		}
+		if err := json.Unmarshal(raw, &c); err != nil || c.Bandwidth == 0 {
+			return
+		}
+		got := ratelimit.VerifLimit(c.Bandwidth)
+		res := map[string]any{"ok": true, "bandwidth": c.Bandwidth, "limiter_rate": got}
+		if d := got - float64(c.Rate); d > 1e-6*float64(c.Rate) || d < -1e-6*float64(c.Rate) {
+			res["ok"], res["why"] = false, fmt.Sprintf("a limit of %d bytes/s builds a limiter that admits %.1f bytes/s (%+.2f%%)", c.Bandwidth, got, 100*d/float64(c.Rate))
+		}
+		e.emit(res)
+	})
 }
